@@ -602,7 +602,16 @@ func (l *IPFSLog) Join(otherLog iface.IPFSLog, size int) (iface.IPFSLog, error) 
 		}
 	}
 
-	mergedHeads := entry.FindHeads(l.heads.Merge(otherHeads))
+	// a head the log does not hold (an entry of another log id, skipped above) cannot retire a head it holds
+	candidateHeads := entry.NewOrderedMap()
+	allHeads := l.heads.Merge(otherHeads)
+	for _, k := range allHeads.Keys() {
+		if _, ok := l.Entries.Get(k); ok {
+			candidateHeads.Set(k, allHeads.UnsafeGet(k))
+		}
+	}
+
+	mergedHeads := entry.FindHeads(candidateHeads)
 
 	for idx, e := range mergedHeads {
 		// notReferencedByNewItems
